@@ -904,6 +904,15 @@ class Exec:
                 c = z3.Or(*[self.eq(l, x, st) for x in its]) if its else z3.BoolVal(False)
             elif isinstance(r, VDict):
                 c = z3.Or(*[self.eq(l, k, st) for k, _ in r.pairs]) if r.pairs else z3.BoolVal(False)
+            elif isinstance(r, VObj):
+                outs = None
+                for s2, m in self.getattr(r, '__contains__', st, {'mod': 'pgpy'}):
+                    if not isinstance(m, Raise):
+                        outs = self.call(m, [l], {}, s2, {'mod': 'pgpy'}, None, None)
+                    break
+                if outs is None or len(outs) != 1 or isinstance(outs[0][1], Raise) or outs[0][0] is not st:
+                    raise ToolLimit('`in` on %s (its __contains__ forks, raises or is missing)' % r.cls)
+                c = self.truth(outs[0][1], st)
             else:
                 raise ToolLimit('in on %s' % type(r).__name__)
             return z3.Not(c) if isinstance(op, ast.NotIn) else c
@@ -1242,6 +1251,22 @@ class Exec:
             return [(st, VInt(hashlib.new(o.alg).digest_size))]
         if isinstance(o, (VInt, VBytes, VBuf, VStr, VHash, VList, VDict)):
             return [(st, VBuiltin(attr, bound=o))]
+        if isinstance(o, VBuiltin) and o.name == 'superobj' and isinstance(o.bound, tuple) and isinstance(o.bound[0], VClass):
+            C, selfv = o.bound
+            mro = self.repo.mro(selfv.cls if isinstance(selfv, VObj) else (selfv.enum or '') if isinstance(selfv, VInt) else getattr(selfv, 'qual', ''))
+            if C.qual in mro:
+                for c in mro[mro.index(C.qual) + 1:]:
+                    ci = self.repo.classes.get(c)
+                    if ci is None:
+                        continue
+                    if attr in ci.props or (attr in ci.sdprops and ci.sdprops[attr]['get'] is not None):
+                        getter = ci.props.get(attr) or ci.sdprops[attr]['get']
+                        return self.call_func(VFunc(getter, None, cls=c, self_val=selfv, mod=ci.module), [], {}, st, ctx)
+                    if attr in ci.methods:
+                        break
+                    if attr in ci.consts:
+                        return self.ev(ci.consts[attr], st.new_env(None), st, {'mod': ci.module})
+            return [(st, VBuiltin(attr, bound=o.bound))]
         if isinstance(o, VBuiltin) and isinstance(o.bound, tuple):
             return [(st, VBuiltin(attr, bound=o.bound))]
         if isinstance(o, VBuiltin):
@@ -1728,6 +1753,38 @@ class Exec:
                 return [(st, VBytes(t))]
             if name == 'constant_time.bytes_eq':
                 return [(st, VBool(self.seq(A[0], st) == self.seq(A[1], st)))]
+            if name in ('bisect.bisect_right', 'bisect.bisect_left', 'bisect.bisect'):
+                seq, item = A[0], A[1]
+                if not isinstance(seq, VList):
+                    raise ToolLimit('bisect over %s' % type(seq).__name__)
+                items = self.items(seq, st)
+                right = name != 'bisect.bisect_left'
+
+                def lt(a, b, s):
+                    # a < b through __lt__ (hook or real method); -> [(state, z3 bool)]
+                    outs = []
+                    for s2, m in self.getattr(a, '__lt__', s, ctx, n):
+                        if isinstance(m, Raise):
+                            raise ToolLimit('bisect needs __lt__ on the elements')
+                        for s3, r in self.call(m, [b], {}, s2, ctx, n, env):
+                            outs.append((s3, self.truth(r, s3)))
+                    return outs
+
+                def search(s, lo, hi):
+                    # CPython's binary search, followed symbolically
+                    if lo >= hi:
+                        return [(s, VInt(lo))]
+                    mid = (lo + hi) // 2
+                    res = []
+                    cmpres = lt(item, items[mid], s) if right else lt(items[mid], item, s)
+                    for s2, c in cmpres:
+                        for s3, t in self.fork(s2, c):
+                            if right:
+                                res += search(s3, lo, mid) if t else search(s3, mid + 1, hi)
+                            else:
+                                res += search(s3, mid + 1, hi) if t else search(s3, lo, mid)
+                    return res
+                return search(st, 0, len(items))
             if name in ('re.subn', 're.sub'):
                 pat, rep = self.conc_bytes(A[0], st), self.conc_bytes(A[1], st)
                 if pat is None or rep is None:
@@ -2041,6 +2098,30 @@ class Exec:
             return [(st, VTuple([VTuple([k, v]) for k, v in b.pairs]))]
         if isinstance(b, VList) and name == 'append':
             st.heap[b.cell] = st.heap[b.cell] + (A[0],)
+            return [(st, VNone())]
+        if isinstance(b, VList) and name == 'appendleft':
+            st.heap[b.cell] = (A[0],) + st.heap[b.cell]
+            return [(st, VNone())]
+        if isinstance(b, VList) and name == 'rotate':
+            k = A[0].conc() if A else 1
+            if k is None:
+                raise ToolLimit('rotate by a symbolic amount')
+            its = list(st.heap[b.cell])
+            if its:
+                k %= len(its)
+                its = its[-k:] + its[:-k] if k else its
+            st.heap[b.cell] = tuple(its)
+            return [(st, VNone())]
+        if isinstance(b, VList) and name == 'insert':
+            k = A[0].conc()
+            if k is None:
+                raise ToolLimit('insert at a symbolic position')
+            its = list(st.heap[b.cell])
+            its.insert(k, A[1])
+            st.heap[b.cell] = tuple(its)
+            return [(st, VNone())]
+        if isinstance(b, VList) and name == 'extend':
+            st.heap[b.cell] = st.heap[b.cell] + tuple(self.iter_items(A[0], st))
             return [(st, VNone())]
         if isinstance(b, VBuiltin):
             return self.call_builtin(VBuiltin(b.name + '.' + name), A, kws, st, ctx, n, env)
